@@ -395,7 +395,7 @@ fn run_worker(
             has_extended_range = false;
             if worker_params.range.high.map_or(false, |high| k >= high) {
                 has_extended_range = true;
-                request_range_extension(&mut worker_params, &mut new_branch_state.branches_tracker);
+                request_range_extension(&mut worker_params, &mut new_branch_state.branches_tracker)?;
             }
 
             reset_branch_base(
@@ -420,7 +420,7 @@ fn run_worker(
             .map_or(false, |high| cutoff >= high)
         {
             has_extended_range = true;
-            request_range_extension(&mut worker_params, &mut new_branch_state.branches_tracker);
+            request_range_extension(&mut worker_params, &mut new_branch_state.branches_tracker)?;
         }
 
         reset_branch_base(
